@@ -269,7 +269,8 @@ class Dict(dict, base.Symbolic, pg_typing.CustomTyping):
     # triggering during initialization.
     self._onchange_callback = onchange_callback
     self.set_accessor_writable(accessor_writable)
-    self.seal(sealed)
+    if sealed:
+      self.seal(sealed)
 
   @property
   def value_spec(self) -> Optional[pg_typing.Dict]:
@@ -432,8 +433,6 @@ class Dict(dict, base.Symbolic, pg_typing.CustomTyping):
 
   def seal(self, sealed: bool = True) -> 'Dict':
     """Seals or unseals current object from further modification."""
-    if self.is_sealed == sealed:
-      return self
     for v in self.sym_values():
       if isinstance(v, base.Symbolic):
         v.seal(sealed)
